@@ -167,6 +167,31 @@ pub fn parse(pasted: &[PastedLine]) -> RefProgram {
             let returns_value = before.flow == Flow::Ecall && matches!(before.ecall_number, Some(5 | 9 | 12 | 41 | 42 | 43 | 50));
             runtime_number = copies && returns_value;
         }
+        if flow == Flow::Ecall && ecall_number.is_none() && !runtime_number && p.instrs.len() >= 6 {
+            // ... or the returned value went through a stack slot while a0 was reused:
+            //   ecall(returns a value); addi sp,sp,-4; sw a0,0(sp); li a0,N; [nop;] lw a7,0(sp); addi sp,sp,4; ecall
+            let is = |r: &str, names: [&str; 2]| names.contains(&r);
+            let sp = |r: &str| is(r, ["sp", "x2"]);
+            let a0 = |r: &str| is(r, ["a0", "x10"]);
+            let a7 = |r: &str| is(r, ["a7", "x17"]);
+            let mut w: Vec<&RefInstr> = p.instrs.iter().rev().take(7).collect();
+            w.reverse();
+            // drop the optional filler
+            if w.len() == 7 && w[4].mnemonic == "nop" {
+                w.remove(4);
+            } else if w.len() == 7 {
+                w.remove(0);
+            }
+            if w.len() == 6 {
+                let returns_value = w[0].flow == Flow::Ecall && matches!(w[0].ecall_number, Some(5 | 9 | 12 | 41 | 42 | 43 | 50));
+                let down = w[1].mnemonic == "addi" && w[1].operands.len() == 3 && sp(&w[1].operands[0]) && sp(&w[1].operands[1]) && w[1].operands[2] == "-4";
+                let spill = w[2].mnemonic == "sw" && w[2].operands.len() == 2 && a0(&w[2].operands[0]) && matches!(w[2].operands[1].as_str(), "0(sp)" | "0(x2)");
+                let reuse = w[3].mnemonic == "li" && w[3].operands.len() == 2 && a0(&w[3].operands[0]);
+                let reload = w[4].mnemonic == "lw" && w[4].operands.len() == 2 && a7(&w[4].operands[0]) && matches!(w[4].operands[1].as_str(), "0(sp)" | "0(x2)");
+                let up = w[5].mnemonic == "addi" && w[5].operands.len() == 3 && sp(&w[5].operands[0]) && sp(&w[5].operands[1]) && w[5].operands[2] == "4";
+                runtime_number = returns_value && down && spill && reuse && reload && up;
+            }
+        }
         // interrupt handler installation: `la R, L` directly before a csr write to utvec (5)
         if matches!(mn.as_str(), "csrrw" | "csrw") {
             let csr_is_utvec = ops.iter().any(|o| o == "utvec" || o == "5");
